@@ -397,9 +397,26 @@ fn limb_carry_value(l: L, r1: u128, r2: u128) -> u128 {
 /// cases of shortest round-trip printing and of the parser's tie detection; uniform values come this close to an
 /// interval edge with probability about r / 5^k. Solved: N * 2^(f+1-k) = -+r (mod 5^k).
 fn interval_edge_value(l: L, r1: u128, r2: u128) -> u128 {
+    match interval_edge_parts(l, r1, r2) {
+        Some((_, _, x)) => x,
+        None => near_short_decimal(l, r1, r2),
+    }
+}
+
+/// The same solve as a literal: the k-digit decimal itself ("ip.N"), which lies within r / (2 * 5^k) ulp of a rounding
+/// tie of the layout without being one: the hard cases of a decimal parser (any fast path that rounds twice, or
+/// decides the tie from a truncated remainder, gets exactly these wrong)
+fn interval_edge_literal(l: L, r1: u128, r2: u128) -> Option<String> {
+    let (n, k, x) = interval_edge_parts(l, r1, r2)?;
+    let xv = l.val(x);
+    let ip = xv.abs().shr_floor(l.f);
+    Some(format!("{}{}.{:0>width$}", if xv.is_neg() { "-" } else { "" }, ip.to_digits(10), n.to_digits(10), width = k as usize))
+}
+
+fn interval_edge_parts(l: L, r1: u128, r2: u128) -> Option<(Big, u32, u128)> {
     let kmax = (l.f as usize * 30103 / 100000).min(54);
     if kmax < 2 || l.f < 8 {
-        return near_short_decimal(l, r1, r2);
+        return None;
     }
     let k = 1 + (r1 % kmax as u128) as u32;
     let k = if (r1 >> 8) & 1 == 1 { kmax as u32 - (r1 >> 9) as u32 % 12u32.min(kmax as u32) } else { k }.max(1);
@@ -424,13 +441,14 @@ fn interval_edge_value(l: L, r1: u128, r2: u128) -> u128 {
     let n0 = target.mul(&inv).rem_trunc(&m5);
     let j = Big::from_u128((r2 >> 24) % (1u128 << k.min(100)));
     let n = n0.add(&j.mul(&m5));
+    let n_digits = n.clone();
     // M = floor(N 2^e / 5^k) = 2x - 1 (lower edge) or 2x (upper edge)
     let mm = n.shl(e).div_floor(&m5);
     let x = if upper { mm.shr_floor(1) } else { mm.add_i64(1).shr_floor(1) };
     let ip = if l.int_bits() > 8 { Big::from_u128((r2 >> 100) % 40).shl(l.f) } else { Big::zero() };
     let x = x.add(&ip);
     let x = if (r2 >> 20) & 1 == 1 && l.signed { x.neg() } else { x };
-    l.wrap(&x)
+    Some((n_digits, k, l.wrap(&x)))
 }
 
 fn precision_from(sel: usize, r: u128, l: L) -> Option<usize> {
@@ -460,10 +478,10 @@ impl Engine for Text {
         match prop {
             "C08" => {
                 let digits = prop_oneof![4 => vec(0u8..16, 0..10), 2 => vec(0u8..16, 0..45), 1 => vec(0u8..16, 0..230)];
-                (layout_or(stratum), pick(4), pick(13), ing(), any::<u128>(), digits.clone(), digits, (any::<u16>(), any::<u8>(), pick(22)))
+                (layout_or(stratum), pick(4), pick(14), ing(), any::<u128>(), digits.clone(), digits, (any::<u16>(), any::<u8>(), pick(22)))
                     .prop_map(|(lay, ri, mode, ia, sel, di, df, (pos, kind, ch))| {
                         let l = L::from_idx(lay as usize);
-                        let radix = if mode == 10 { 10 } else { RADICES[ri] };
+                        let radix = if mode == 10 || mode == 13 { 10 } else { RADICES[ri] };
                         let s = match mode {
                             // decimal digit groups on a limb boundary of the parser's accumulator
                             10 => {
@@ -476,6 +494,17 @@ impl Engine for Text {
                                 let sign = ["", "", "-", "+"][((sel >> 70) & 3) as usize];
                                 format!("{}{}.{}", sign, ip.to_digits(10), limb_carry_fraction(sel, &df, 40))
                             }
+                            // a k-digit decimal within a hair of a rounding tie (solved), optionally with a tail of zeros
+                            13 => match interval_edge_literal(l, sel, sel.rotate_left(64) ^ (pos as u128) << 40 ^ (kind as u128)) {
+                                Some(t) => {
+                                    if (sel >> 120) & 3 == 0 {
+                                        format!("{}{}", t, "0".repeat(df.len()))
+                                    } else {
+                                        t
+                                    }
+                                }
+                                None => tie_literal(l, radix, pattern(l, ia), (sel % 10) as usize, &df, sel >> 4),
+                            },
                             // long literals: a decisive prefix (a rounding tie, a short number, a representable value)
                             // followed by a long run of one digit and possibly a final digit that decides the rounding;
                             // run lengths log-uniform up to 2^11 digits (rarely 2^13): "any number of digits"
@@ -879,7 +908,24 @@ impl Engine for Text {
                         "to_be_bytes" => Exp::Is(Out::Y(be.clone())),
                         "to_ne_bytes" => Exp::Is(Out::Y(ne.clone())),
                         "encoded_size" | "max_encoded_len" => Exp::Is(Out::V(n as u128)),
-                        "decode(encode)" | "serde_back" | "serde_wrapping_back" | "serde_from_bits_json" | "decode_stream(encode)" | "decode_record" | "decode_vec" | "decode_all(encode)" => Exp::Is(Out::O(Some(a))),
+                        "decode(encode)" | "serde_back" | "serde_wrapping_back" | "serde_from_bits_json" | "decode_stream(encode)" | "decode_record" | "decode_vec" | "decode_all(encode)" | "decode_box" | "decode_rc" | "decode_arc" | "decode_array" | "decode_option"
+                        | "decode_boxed_record" | "skip_then_decode" => Exp::Is(Out::O(Some(a))),
+                        "encode_array" => {
+                            let mut v = le.clone();
+                            v.extend_from_slice(&le);
+                            v.extend_from_slice(&le);
+                            Exp::Is(Out::Y(v))
+                        }
+                        "encode_to" => {
+                            let mut v = vec![0xAAu8];
+                            v.extend_from_slice(&le);
+                            Exp::Is(Out::Y(v))
+                        }
+                        // None is allowed (the codec does not require it); a wrong size is not
+                        "encoded_fixed_size" => match got {
+                            Out::O(None) => Exp::Free,
+                            _ => Exp::Is(Out::O(Some(n as u128))),
+                        },
                         "serde_model_back(human)" | "serde_model_back(binary)" | "serde_model_wrapping_back(human)" | "serde_model_wrapping_back(binary)"
                         | "serde_model_play(human)" | "serde_model_play(binary)" => Exp::Is(Out::O(Some(a))),
                         "serde_model(human)" | "serde_model(binary)" | "serde_model_wrapping(human)" | "serde_model_wrapping(binary)" => Exp::Is(Out::S(format!("{}", l.val(a)))),
